@@ -1,7 +1,7 @@
-(* C42 obligation: result agreement, for every core oracle, state and arguments: a C call of an expected row (outside the deviations)
-   whose run-time guards and type preconditions hold returns success with the C++ API value -- the expected callee on the
-   expected argument order -- stored in the expected destination, or, when the API throws, the error code of the exception
-   class (nullptr for the string conversions) with the state untouched. *)
+(* C42 obligation: result agreement, for every core oracle, state and arguments: a C call of an expected row whose run-time guards and
+   type preconditions hold (and whose zero tests do not fire) returns success with the C++ API value -- the expected callee on
+   the expected argument order -- stored in the expected destination, or, when the API throws, the error code of the
+   exception class (nullptr for the string conversions) with the state untouched. *)
 From SE Require Import C42.CWrapSpec C42.CContainers C42.CWrapProofs C42.Gen_CWrap C42.CWrapTable.
 Local Open Scope string_scope.
 Theorem C42_cwrap_agrees_sem :
@@ -11,6 +11,7 @@ Theorem C42_cwrap_agrees_sem :
     actuals_match (cf_params f) actuals = true ->
     all_hold guard_holds st actuals (cf_guards f) = true ->
     all_hold class_holds st actuals (cf_casts f) = true ->
+    zguard_fires actuals (cf_zguards f) = None ->
     match spec_call core e k st actuals with
     | Some (Ok v) =>
         match spec_store e st actuals v with
